@@ -66,7 +66,13 @@ META = {
             "deliberately undersized blocks where model (Fail ErrScratch) and ASan must agree.  Search oracle: the property "
             "evaluated on a real-libm build by an independent Python reference (exact rationals for the piecewise families; "
             "for s/z/pi with parameters a few ulps apart, where x lies between the computed and the exact midpoint, the value of "
-            "either quadratic piece is accepted by the closeness test - the [0,1] test is unconditional).",
+            "either quadratic piece is accepted by the closeness test - the [0,1] test is unconditional).  Glue around the modelled core "
+            "(differential tests, not theorems): the 10 C++ member functions of a_pid_fuzzy (list read from the header on every run) "
+            "against the C functions they forward to, all state compared bit for bit; and one driver generic in a_real built as float, "
+            "double and long double with ASan+UBSan: trap/tri/lins/linz/s/z/pi, the dispatcher, the min/max/algebraic/bounded operators "
+            "and fuzzy-controller histories on dyadic data whose every intermediate fits binary32 must print exactly the documented "
+            "values in all three builds, with every table and the scratch block of exactly A_PID_FUZZY_BFUZZ(n) bytes in one pool with "
+            "guard bytes; the exp/pow/sqrt families are compared with a binary64 reference within 1e-5 relative + 1e-6 absolute.",
     "note": "Trusted: Coq kernel/vm_compute with primitive floats; the standard real-number axioms listed by Print "
             "Assumptions (classical reals, functional extensionality); the 'same term, different NumOps instance' argument; "
             "the hand transcription coq/C13/MfDefs.v + FuzzyDefs.v (on coq/C12/PidDefs.v), validated bit for bit on the "
@@ -79,7 +85,9 @@ META = {
             "scratch block is two arrays idx[2n]/val[n(n+2)] (byte layout stated by bfuzz_bytes/val_offset and compared with "
             "the C's pointer arithmetic in the run); the active sets ae/aec of the gain theorems are characterised by the "
             "executable walk_spec (sets whose membership exceeds A_REAL_EPSILON), and 'at most nfuzz active sets' and "
-            "'table long enough for its tags' are hypotheses.",
+            "'table long enough for its tags' are hypotheses.  The glue runs (tools/vglue.py, harness/glue/) are differential tests on "
+            "generated inputs, not theorems; the float and long double builds are not modelled in Rocq, and what uses exp/pow/sqrt is "
+            "only compared with a binary64 reference within a float-sized tolerance there.",
     "technique": "Rocq proof over R (case analysis + lra/nra/field, stdlib continuity and Rpower, forward simulation of the "
                  "loops over explicit scratch lists by induction) + mf.c/fuzzy.c/fuzzy.h (13 membership functions, the dispatcher per tag, "
                  "9 operators) regenerated by a translator and proved equal to the model on every run + bit-exact "
@@ -955,3 +963,4 @@ def run(ctx):
     ctx.cov["scratch_overrun_cases_model_and_C_agree"] = n_over
     for d in (cases[len(corpus)::max(1, (len(cases) - len(corpus)) // 5)])[:5]:
         ctx.sample({"case": c_line(d)[:200], "model_expr": coq_expr(d)[:200]})
+    __import__("vglue").glue(ctx, "C13")   # glue around the modelled core: C++ member wrappers + float / long double builds (differential tests, tools/vglue.py)
